@@ -28,6 +28,48 @@ def w1bin(flavor, n, alloc, std="11", cxx="g++", asan=None, ndebug=True):
                std=std, cxx=cxx, asan=asan, ndebug=ndebug)
 
 
+def w2bin(flavor, n, m, acfg, std="11", cxx="g++", asan=None, ndebug=True):
+    """acfg: -1 std::allocator, else bit mask 1 POCCA, 2 POCMA, 4 POCS, 8 is_always_equal"""
+    if asan is None:
+        asan = flavor in TRIVIAL
+    aname = "std" if acfg < 0 else "la%d" % acfg
+    name = "w2-%s-N%dxM%d-%s-%s-std%s%s%s" % (flavor, n, m, aname, cxx.replace("+", "p"), std,
+                                            "-asan" if asan else "", "" if ndebug else "-assert")
+    return Bin(name, "w2_main.cpp",
+               defines=["SV_FLAVOR=" + FLAVOR_TYPE[flavor], "SV_N=%d" % n, "SV_M=%d" % m,
+                        "SV_ACFG=%s" % ("(-1)" if acfg < 0 else str(acfg))],
+               std=std, cxx=cxx, asan=asan, ndebug=ndebug)
+
+
+W2_BOUNDS = {
+    "quick":    {"S": 4, "R": 8, "deadline": 420},
+    "thorough": {"S": 6, "R": 12, "deadline": 2400},
+}
+W2_PAIRS = {
+    "quick": ((0, 0), (2, 2), (0, 2), (2, 0), (2, 3), (3, 2)),
+    "thorough": tuple((a, b) for a in (0, 1, 2, 4) for b in (0, 1, 2, 4)),
+}
+# allocator configurations: std::allocator, the 8 POCxx combinations with is_always_equal false,
+# and always-equal ones (all 8 in the thorough tier)
+W2_ACFGS = {
+    "quick": (-1, 0, 1, 2, 3, 4, 5, 6, 7, 8, 9, 15),
+    "thorough": (-1,) + tuple(range(16)),
+}
+
+
+def w2_jobs(tier, flavors, pairs, acfgs, faults, focus=G_ALL, **over):
+    jobs = []
+    b = dict(W2_BOUNDS[tier])
+    b.update(over)
+    for f in flavors:
+        for (n, m) in pairs:
+            for a in acfgs:
+                bn = w2bin(f, n, m, a)
+                jobs.append(Job(bn.name, bn, ["--S", b["S"], "--R", b["R"], "--faults", faults,
+                                             "--focus", focus, "--deadline", b["deadline"]]))
+    return jobs
+
+
 def bin_spec(b):
     return {"name": b.name, "source": b.source, "defines": b.defines, "std": b.std, "cxx": b.cxx,
             "asan": b.asan, "ndebug": b.ndebug, "opt": b.opt, "extra": b.extra}
@@ -97,6 +139,10 @@ def run_svmc(prop, tier, jobs, level="model_checking", extra_assumptions=()):
             props = v["props"].split(",")
             if prop in props:
                 hist = (v["history"] + " " + v["op_token"]).strip()
+                if "/ids=unequal" in v["config"]:
+                    hist = "ids=unequal " + hist
+                elif "/ids=equal" in v["config"]:
+                    hist = "ids=equal " + hist
                 mine.append({
                     "oracle": v["oracle"], "op": v["op"], "detail": v["detail"],
                     "config": v["config"], "count": v["count"],
@@ -152,7 +198,7 @@ def run_svmc(prop, tier, jobs, level="model_checking", extra_assumptions=()):
         "crashed_trials": tot["crashes"],
         "trials_skipped_same_crash_class": tot["skipped_crash_class"],
         "configurations": configs,
-        "bounds": dict(BOUNDS[tier]),
+        "bounds": {"W1": dict(BOUNDS[tier]), "W2": dict(W2_BOUNDS[tier])},
         "exhaustive": exhaustive and tot["crashes"] == 0,
         "samples": samples or ["(no samples)"],
         "rule": "explicit-state BFS to a fixpoint over (size, capacity[, allocator id]) shapes; every transition "
@@ -177,25 +223,34 @@ def run_svmc(prop, tier, jobs, level="model_checking", extra_assumptions=()):
 def plan_C01(prop, tier):
     fl = ("NM", "MO", "TR") if tier == "quick" else ("NM", "TM", "MO", "CO", "TR", "INT")
     cfgs = grid(fl, W1_NS[tier], (1,)) + grid(("NM",), (0, 2), (0,))
-    return run_svmc(prop, tier, w1_jobs(tier, cfgs, G_ALL, 0))
+    jobs = w1_jobs(tier, cfgs, G_ALL, 0)
+    jobs += w2_jobs(tier, ("NM", "TR"), W2_PAIRS[tier], (-1, 0, 7), 0)
+    jobs += w2_jobs(tier, ("MO",), W2_PAIRS[tier], (0,), 0)
+    return run_svmc(prop, tier, jobs)
 
 
 def plan_C02(prop, tier):
     fl = ("NM", "TM", "MO", "TR") if tier == "quick" else ("NM", "TM", "MO", "MOT", "CO", "TR", "INT")
     cfgs = grid(fl, W1_NS[tier], (1,)) + grid(("NM", "INT"), (0, 2), (0,))
-    return run_svmc(prop, tier, w1_jobs(tier, cfgs, G_ALL, 1))
+    jobs = w1_jobs(tier, cfgs, G_ALL, 1)
+    jobs += w2_jobs(tier, ("NM", "TM"), W2_PAIRS[tier], (0, 7, 15), 1)
+    return run_svmc(prop, tier, jobs)
 
 
 def plan_C03(prop, tier):
     fl = ("NM", "TM", "MO", "CO") if tier == "quick" else ("NM", "TM", "MO", "MOT", "CO")
     cfgs = grid(fl, W1_NS[tier], (1,)) + grid(("NM",), (0, 2), (0,))
-    return run_svmc(prop, tier, w1_jobs(tier, cfgs, G_ALL, 1))
+    jobs = w1_jobs(tier, cfgs, G_ALL, 1)
+    jobs += w2_jobs(tier, ("NM", "TM", "MO"), W2_PAIRS[tier], (0, 7), 1)
+    return run_svmc(prop, tier, jobs)
 
 
 def plan_C04(prop, tier):
     fl = ("NM", "TM", "TR") if tier == "quick" else ("NM", "TM", "MO", "CO", "TR", "INT")
     cfgs = grid(fl, W1_NS[tier], (1,)) + grid(("NM", "INT"), W1_NS[tier], (0,))
-    return run_svmc(prop, tier, w1_jobs(tier, cfgs, G_ALL, 1))
+    jobs = w1_jobs(tier, cfgs, G_ALL, 1)
+    jobs += w2_jobs(tier, ("NM",), W2_PAIRS[tier], W2_ACFGS[tier], 1)
+    return run_svmc(prop, tier, jobs)
 
 
 STRONG_GROUPS = G_APPEND1 | G_INSERT1 | G_INSERTN | G_INSRANGE | G_RESIZE | G_CAP | G_APPENDR
@@ -204,13 +259,17 @@ STRONG_GROUPS = G_APPEND1 | G_INSERT1 | G_INSERTN | G_INSRANGE | G_RESIZE | G_CA
 def plan_C05(prop, tier):
     fl = ("NM", "TM", "CO", "MO") if tier == "quick" else ("NM", "TM", "CO", "MO", "MOT")
     cfgs = grid(fl, W1_NS[tier], (1,)) + grid(("TM",), (0, 2), (0,))
-    return run_svmc(prop, tier, w1_jobs(tier, cfgs, STRONG_GROUPS, 1))
+    jobs = w1_jobs(tier, cfgs, STRONG_GROUPS, 1)
+    jobs += w2_jobs(tier, ("NM", "TM", "CO"), W2_PAIRS[tier], (0,), 1)
+    return run_svmc(prop, tier, jobs)
 
 
 def plan_C06(prop, tier):
     fl = ("NM", "TM", "MO", "CO") if tier == "quick" else ("NM", "TM", "MO", "MOT", "CO", "TR")
     cfgs = grid(fl, W1_NS[tier], (1,)) + grid(("TM",), (0, 2), (0,))
-    return run_svmc(prop, tier, w1_jobs(tier, cfgs, G_ALL, 2))
+    jobs = w1_jobs(tier, cfgs, G_ALL, 2)
+    jobs += w2_jobs(tier, ("NM", "TM", "MO"), W2_PAIRS[tier], (0, 2, 7), 2)
+    return run_svmc(prop, tier, jobs)
 
 
 def plan_C10(prop, tier):
@@ -234,7 +293,28 @@ def plan_C15(prop, tier):
     return run_svmc(prop, tier, w1_jobs(tier, cfgs, focus, 1))
 
 
+def plan_C07(prop, tier):
+    fl = ("NM",) if tier == "quick" else ("NM", "TM", "MO")
+    jobs = w2_jobs(tier, fl, W2_PAIRS[tier], W2_ACFGS[tier], 1 if tier == "thorough" else 0)
+    return run_svmc(prop, tier, jobs)
+
+
+def plan_C09(prop, tier):
+    jobs = w2_jobs(tier, ("NM",), W2_PAIRS[tier], W2_ACFGS[tier], 0)
+    jobs += w2_jobs(tier, ("TM", "MO", "TR"), W2_PAIRS[tier], (-1, 0, 7, 15) if tier == "quick" else W2_ACFGS[tier], 0)
+    return run_svmc(prop, tier, jobs)
+
+
+def plan_C18b_jobs(tier):
+    fl = ("NM", "TM", "MO", "TR") if tier == "quick" else ("NM", "TM", "MO", "MOT", "CO", "TR", "INT")
+    cfgs = grid(fl, W1_NS[tier], (1,)) + grid(("NM",), (0, 2), (0,))
+    jobs = w1_jobs(tier, cfgs, G_ALL, 1)
+    jobs += w2_jobs(tier, ("NM", "TM"), W2_PAIRS[tier], (-1, 0, 2, 4, 8, 15), 1)
+    return jobs
+
+
 PLANS = {
+    "C07": plan_C07, "C09": plan_C09,
     "C01": plan_C01, "C02": plan_C02, "C03": plan_C03, "C04": plan_C04, "C05": plan_C05,
     "C06": plan_C06, "C10": plan_C10, "C11": plan_C11, "C15": plan_C15,
 }
